@@ -174,7 +174,7 @@ prop( 'C11', [ 'X-LOOKUP', 'X-FROMREGEX', 'X-TERMINAL', 'G-PRIMS', 'X-ENCODER' ]
       technique='must-pass-through ordering over a statement CFG (lookup precedence); decision tables evaluated three-valued over '
                 'finite boolean domains; semantic evaluation of the ordering key; AST idioms with role-following wildcards' )
 
-prop( 'C02', [ 'G-CHUNK', 'G-FRAME', 'P-ACT', 'P-ONE', 'P-CHAIN', 'R-ISO', 'N-RECV', 'R-SENT', 'R-PROGRESS', 'G-PRIMS', 'E-CONTAIN', 'R-DECIDE' ],
+prop( 'C02', [ 'G-CHUNK', 'G-FRAME', 'P-ACT', 'P-ONE', 'P-CHAIN', 'R-ISO', 'N-RECV', 'R-SENT', 'R-PROGRESS', 'G-PRIMS', 'E-CONTAIN', 'R-DECIDE', 'P-SEPARATORS' ],
       decides='P-ACT also: on the branch where the client\'s non-blocking receive returned nothing ( <rcvd> is None, source empty ) the framing-engine loop is unreachable - a poll between two chunks of one frame cannot destroy the framing.  G-CHUNK: in the stream-fed machines (enip_machine incl. enip_header; tnet_machine) no state has both an input edge and a '
               'None edge and no transition predicate inspects the source - i.e. no state\'s successor depends on whether the next byte has '
               'arrived yet (necessary for chunk independence); G-FRAME: the header sub-graph is the single unconditional chain of the six '
